@@ -263,3 +263,110 @@ Section Composition.
       run_calls s0 cs [] = Done (true, s', emitted) -> is_finished s' = true ->
       exists info, decode dict_word transform_tbl true [] emitted = Ok (input, info).
 End Composition.
+
+(* ---------------------------------------------------------------- (e') the composition: what is proved *)
+(* Appended by the composition proof (proofs/Roundtrip_*.v).  The definitions of Section Composition are
+   restated there over an abstract call type (proofs/Roundtrip_defs.v: g_run_calls, g_input, g_answer_bits,
+   g_backend_faithful, g_all_faithful have the bodies of run_calls, input, answer_bits, backend_faithful,
+   all_faithful), so every theorem below is `exact` an instance. *)
+From V Require Import proofs.Slicing_proofs proofs.Roundtrip_defs proofs.Roundtrip_witness proofs.Roundtrip_main.
+
+(* The statement as written above is FALSE: all_ok + all_faithful do not say that an answer starts with
+   the pending partial byte (W1, here), that the last answer leaves no bits behind (stmt_refuted_tail), or,
+   on the quality 0/1 path, that a_lfp counts the bytes the invocation was given (stmt_refuted_fast_positions). *)
+Theorem C01_stream_roundtrip_modulo_heuristics_stmt_refuted : forall dict_word transform_tbl,
+  ~ C01_stream_roundtrip_modulo_heuristics_stmt dict_word transform_tbl.
+Proof. exact (fun d t => stmt_refuted_carry d t call k_op k_in k_cap Build_call (fun _ _ _ => eq_refl) (fun _ _ _ => eq_refl) (fun _ _ _ => eq_refl)). Qed.
+Print Assumptions C01_stream_roundtrip_modulo_heuristics_stmt_refuted.
+
+Theorem C01_stream_roundtrip_modulo_heuristics_stmt_refuted_tail : forall dict_word transform_tbl,
+  ~ C01_stream_roundtrip_modulo_heuristics_stmt dict_word transform_tbl.
+Proof. exact (fun d t => stmt_refuted_tail d t call k_op k_in k_cap Build_call (fun _ _ _ => eq_refl) (fun _ _ _ => eq_refl) (fun _ _ _ => eq_refl)). Qed.
+Print Assumptions C01_stream_roundtrip_modulo_heuristics_stmt_refuted_tail.
+
+Theorem C01_stream_roundtrip_modulo_heuristics_stmt_refuted_fast : forall dict_word transform_tbl,
+  ~ C01_stream_roundtrip_modulo_heuristics_stmt dict_word transform_tbl.
+Proof. exact (fun d t => stmt_refuted_fast_positions d t call k_op k_in k_cap Build_call (fun _ _ _ => eq_refl) (fun _ _ _ => eq_refl) (fun _ _ _ => eq_refl)). Qed.
+Print Assumptions C01_stream_roundtrip_modulo_heuristics_stmt_refuted_fast.
+
+(* THE COMPOSITION, main path (quality >= 2, or catable, or magic: fastcond = false), scripts of PROCESS /
+   FLUSH / FINISH calls (no metadata calls), any input chunking, any output capacities.
+   Premises about the recorded answers, all visible:
+     answer_ok3s      boolean, per answer: answer_ok, |a_out| + 3 < 2^32 (= answer_ok2), a_lb < 2^a_lbb,
+                      and a_lbb = 0 for the last answer                                   [NEW: the last two]
+     kept_ann         boolean, per (pending bits at invocation, answer): the first last_bytes_bits bits the
+                      answer wrote are the pending last_bytes                              [NEW]
+     faithful_ann     Prop (THE HEURISTICS HYPOTHESIS, in the weaker form faithful_at): the decoder spec's
+                      meta-block loop consumes the answer's own bits - up to 7 zero fill bits after the last
+                      block - and decodes them to the input slice up to a_lfp, for byte-aligned continuations
+     g_ann s0 cs      the consumed answers with the pending bits each was invoked on (executable: the first
+                      answer of a call sees last_bytes at call entry, later ones what the previous answer left)
+   B is the decoder spec's budget (number of meta-blocks and of commands beyond MLEN): any B >= 8*|emitted|. *)
+Theorem C01_stream_roundtrip_main_path : forall dict_word transform_tbl (params : list (N * N)) (cs : list call)
+    (answers : list answer) s' emitted B,
+  let s0 := upd_misc (fold_left (fun s kv => snd (set_parameter s (fst kv) (snd kv))) params init_st) false answers in
+  let s1 := ensure_initialized s0 in
+  let input := concat (map k_in (filter (fun c => negb (opk_eqb (k_op c) OpMeta)) cs)) in
+  forallb answer_ok3s answers = true ->
+  no_meta call k_op cs = true -> fastcond s1 = false -> lenN input < 2 ^ 64 ->
+  kept_ann (g_ann call k_op k_in k_cap s0 cs) = true ->
+  faithful_ann dict_word transform_tbl B (large_window s1) (stream_wbits s1) input 0 (g_ann call k_op k_in k_cap s0 cs) ->
+  run_calls s0 cs [] = Done (true, s', emitted) -> is_finished s' = true ->
+  8 * lenN emitted <= B ->
+  exists info, decode_bits dict_word transform_tbl true [] (flat_map (fun b => N_to_bits 8 b) emitted) B = Ok (input, info).
+Proof. exact (fun d t => roundtrip_main_path d t call k_op k_in k_cap). Qed.
+Print Assumptions C01_stream_roundtrip_main_path.
+
+(* ... and for the decoder spec's own entry point, the premise taken at decode's budget *)
+Theorem C01_stream_roundtrip_main_path_decode : forall dict_word transform_tbl (params : list (N * N)) (cs : list call)
+    (answers : list answer) s' emitted,
+  let s0 := upd_misc (fold_left (fun s kv => snd (set_parameter s (fst kv) (snd kv))) params init_st) false answers in
+  let s1 := ensure_initialized s0 in
+  let input := concat (map k_in (filter (fun c => negb (opk_eqb (k_op c) OpMeta)) cs)) in
+  forallb answer_ok3s answers = true ->
+  no_meta call k_op cs = true -> fastcond s1 = false -> lenN input < 2 ^ 64 ->
+  kept_ann (g_ann call k_op k_in k_cap s0 cs) = true ->
+  faithful_ann dict_word transform_tbl (8 * lenN emitted + 8) (large_window s1) (stream_wbits s1) input 0 (g_ann call k_op k_in k_cap s0 cs) ->
+  run_calls s0 cs [] = Done (true, s', emitted) -> is_finished s' = true ->
+  exists info, decode dict_word transform_tbl true [] emitted = Ok (input, info).
+Proof. exact (fun d t => roundtrip_main_path_decode d t call k_op k_in k_cap). Qed.
+Print Assumptions C01_stream_roundtrip_main_path_decode.
+
+(* the class without FLUSH and without metadata calls, from the premise of the statement above VERBATIM
+   (all_faithful with its chain of carries; backend_faithful as written) plus the boolean premises; the
+   decoder budget B must cover the budget backend_faithful assumes (8*|a_out| + 64 per answer) *)
+Theorem C01_stream_roundtrip_noflush : forall dict_word transform_tbl (params : list (N * N)) (cs : list call)
+    (answers : list answer) s' emitted B,
+  let s0 := upd_misc (fold_left (fun s kv => snd (set_parameter s (fst kv) (snd kv))) params init_st) false answers in
+  let s1 := ensure_initialized s0 in
+  let input := concat (map k_in (filter (fun c => negb (opk_eqb (k_op c) OpMeta)) cs)) in
+  forallb answer_ok3s answers = true ->
+  no_meta call k_op cs = true -> no_flush call k_op cs = true -> fastcond s1 = false -> lenN input < 2 ^ 64 ->
+  kept_chain (last_bytes s1) (last_bytes_bits s1) answers = true ->
+  all_faithful dict_word transform_tbl (large_window s1)
+               (Z.to_N (Z.max (lgwin s1) (if ((quality s1 =? 0) || (quality s1 =? 1))%Z then 18 else 0)))
+               input 0 (last_bytes_bits s1) answers ->
+  run_calls s0 cs [] = Done (true, s', emitted) -> is_finished s' = true ->
+  8 * lenN emitted <= B -> Forall (fun a => 8 * lenN (a_out a) + 64 <= B) answers ->
+  exists info, decode_bits dict_word transform_tbl true [] (flat_map (fun b => N_to_bits 8 b) emitted) B = Ok (input, info).
+Proof. exact (fun d t => roundtrip_noflush_verbatim d t call k_op k_in k_cap). Qed.
+Print Assumptions C01_stream_roundtrip_noflush.
+
+(* non-vacuity: default parameters, input "hi!", five calls with output capacities 1/100/100/2/100, three
+   answers - a flush that emits nothing (the glue pads the pending header bits), a stored block invoked on
+   NO pending bits, a stored block + the empty last block; every premise of C01_stream_roundtrip_main_path
+   holds and the emitted bytes 6B 00 08 00 08 68 69 00 00 08 21 03 decode to "hi!" *)
+From V Require Import proofs.Roundtrip_example.
+(* ex_script call Build_call = [FLUSH [] cap 1; PROCESS [] cap 100; FLUSH [104;105] cap 100; FINISH [33] cap 2; FINISH [] cap 100],
+   ex_input = [104;105;33], ex_emitted = [107;0;8;0;8;104;105;0;0;8;33;3]  (proofs/Roundtrip_example.v) *)
+Example C01_stream_roundtrip_main_path_example : forall dict_word transform_tbl,
+  let s0 := state0 [] ex_answers in
+  let s1 := ensure_initialized s0 in
+  forallb answer_ok3s ex_answers = true /\ no_meta call k_op (ex_script call Build_call) = true /\ fastcond s1 = false
+  /\ kept_ann (g_ann call k_op k_in k_cap s0 (ex_script call Build_call)) = true
+  /\ large_window s1 = false /\ stream_wbits s1 = 22 /\ g_input call k_op k_in (ex_script call Build_call) = ex_input
+  /\ (forall B, faithful_ann dict_word transform_tbl B (large_window s1) (stream_wbits s1) ex_input 0
+                             (g_ann call k_op k_in k_cap s0 (ex_script call Build_call)))
+  /\ (exists s', g_run_calls call k_op k_in k_cap s0 (ex_script call Build_call) [] = Done (true, s', ex_emitted) /\ is_finished s' = true)
+  /\ exists info, decode dict_word transform_tbl true [] ex_emitted = Ok (ex_input, info).
+Proof. exact (fun d t => roundtrip_main_path_example d t call k_op k_in k_cap Build_call (fun _ _ _ => eq_refl) (fun _ _ _ => eq_refl) (fun _ _ _ => eq_refl)). Qed.
